@@ -96,8 +96,8 @@ func (c *Ctx) blockIDLayout() {
 				return
 			}
 			_, fn, ok := fieldOf(st.Addr)
-			if !ok {
-				return
+			if !ok || !isInteger(st.Val.Type()) {
+				return // (a whole-struct store id.BlockID = BlockID{...} is read through the literal's own field stores)
 			}
 			derivesFrom(st.Val, func(v ssa.Value) bool {
 				cl := callOf(v)
@@ -110,6 +110,9 @@ func (c *Ctx) blockIDLayout() {
 				}
 				if sl, ok := cl.Call.Args[len(cl.Call.Args)-1].(*ssa.Slice); ok {
 					got = append(got, norm(offShape(sl.Low), offShape(sl.High), how, fn))
+				} else {
+					// the whole buffer: the value is read from offset 0
+					got = append(got, norm("", "", how, fn))
 				}
 				return true
 			}, false)
